@@ -352,6 +352,7 @@ func rules(r *Report) []string {
 
 func wantRules(t *testing.T, r *Report, want ...string) {
 	t.Helper()
+	want = append([]string(nil), want...)
 	sort.Strings(want)
 	got := rules(r)
 	if strings.Join(got, ",") != strings.Join(want, ",") {
